@@ -3,6 +3,7 @@ package batchers
 import (
 	"rare/pkg/followreader"
 	"rare/pkg/logger"
+	"rare/pkg/verifhook"
 	"sync"
 )
 
@@ -41,6 +42,7 @@ func TailFilesToChan(filenames <-chan string, batchSize, batchBuffer int, reopen
 		}
 
 		wg.Wait()
+		verifhook.Point("tail.beforeClose")
 		out.close()
 	}()
 
